@@ -782,6 +782,47 @@ def run_seq(ctx):
                 lib.clear_caches()
 
 
+# -- ranges on another sheet next to unqualified references ---------------------
+# The cells of the formula's own sheet are meant by B1, C1, D1 - also after a
+# range on another sheet was read, where cells of the same coordinates hold
+# the opposite.
+def run_xsheet(ctx):
+    import itertools as it
+    forms = (
+        ('and-range-first', '=AND(Data!A1:A2,B1)',
+         lambda a1, a2, b: a1 and a2 and b),
+        ('or-range-first', '=OR(Data!A1:A2,B1)',
+         lambda a1, a2, b: a1 or a2 or b),
+        ('and-ref-first', '=AND(B1,Data!A1:A2)',
+         lambda a1, a2, b: a1 and a2 and b),
+        ('if-or', '=IF(OR(Data!A1:A2),C1,D1)',
+         lambda a1, a2, b: 'c' if (a1 or a2) else 'd'),
+        ('if-and-b', '=IF(AND(Data!A2:A2,B1),C1,D1)',
+         lambda a1, a2, b: 'c' if (a2 and b) else 'd'),
+        ('not-or', '=NOT(OR(Data!A1:A1,B1))',
+         lambda a1, a2, b: not (a1 or b)),
+        ('nested', '=IF(B1,IF(AND(Data!A1:A2),C1,D1),IF(OR(Data!A1:A2,B1),'
+         'D1,C1))',
+         lambda a1, a2, b: ('c' if (a1 and a2) else 'd') if b
+         else ('d' if (a1 or a2 or b) else 'c')),
+    )
+    for fname, text, want in forms:
+        for a1, a2, b in it.product((True, False), repeat=3):
+            cells = {AT: text, SHEET + 'B1': b, SHEET + 'C1': 'own-c',
+                     SHEET + 'D1': 'own-d', 'Data!A1': a1, 'Data!A2': a2,
+                     'Data!B1': not b, 'Data!C1': 'other-c',
+                     'Data!D1': 'other-d'}
+            got = lib.eval_formula(text, {k: v for k, v in cells.items()
+                                          if k != AT}, AT)
+            w = want(a1, a2, b)
+            w = {'c': 'text:own-c', 'd': 'text:own-d'}.get(
+                w, 'bool:%s' % bool(w))
+            ctx.check('C10/XSHEET/%s/A1=%s,A2=%s,B1=%s' % (
+                fname, 'TF'[not a1], 'TF'[not a2], 'TF'[not b]), got, w,
+                ['family:range-on-another-sheet', 'form:' + fname],
+                {'kind': 'xsheet'}, True, note=text)
+
+
 # -- the first call of a function in a process --------------------------------
 # Laziness must not depend on how many arguments the FIRST call of IF / AND /
 # OR in the process happened to have.  Each sequence runs in a fresh
@@ -869,6 +910,7 @@ def plan(tier):
     shards.append({'fam': 'FIRST', 'weight': 5})
     shards.append({'fam': 'ABSENT'})
     shards.append({'fam': 'SEQ'})
+    shards.append({'fam': 'XSHEET'})
     ncall = len(call_cases(tier))
     for lo in range(0, ncall, 500):
         shards.append({'fam': 'CALL', 'tier': tier, 'lo': lo,
@@ -991,6 +1033,10 @@ def run_shard(shard, ctx):
         name, args, env = forms[shard['lo']]
         ctx.sample({'family': 'ANDOR', 'formula': '=' + lazy.render(
             ('and', [S(i, a) for i, a in enumerate(args)])), 'cells': env})
+    elif fam == 'XSHEET':
+        run_xsheet(ctx)
+        ctx.sample({'family': 'XSHEET', 'formula': '=AND(Data!A1:A2,B1)',
+                    'cells': {'Sheet1!B1': True, 'Data!B1': False}})
     elif fam == 'SEQ':
         run_seq(ctx)
         ctx.sample({'family': 'SEQ', 'cells': {
@@ -1064,6 +1110,8 @@ def replay(inputs, ctx):
         run_absent(ctx)
     elif kind == 'seq':
         run_seq(ctx)
+    elif kind == 'xsheet':
+        run_xsheet(ctx)
     elif kind == 'firstcall':
         run_firstcall(ctx)
     elif kind == 'flip':
